@@ -1,5 +1,6 @@
 import Driver.OpsLabel
 import TT.Spec.Nav
+import TT.Spec.More15d
 namespace Driver
 open TT TT.Tree
 
@@ -64,26 +65,8 @@ def runOpNav (op : String) (args : List String) : String :=
         | [l, r] => ((decOPath l).getD none, (decOPath r).getD none)
         | _ => (none, none)
       if outs.length != ps.length then "FAIL arity" else
-      let tbl := ps.zip outs
-      let rightOf := fun (p : Path) => ((tbl.find? (·.1 == p)).map (·.2.2)).getD none
-      let leftOf := fun (p : Path) => ((tbl.find? (·.1 == p)).map (·.2.1)).getD none
-      if tbl.all (fun (p, l, r) =>
-          (match r with
-           | some q => leftOf q == some p && q.dropLast == p.dropLast && q.length == p.length &&
-               -- q is the next sibling in leftmost order: no sibling strictly between
-               (let kp := ((t.get? p).map Spec.minLeaf).getD 0
-                let kq := ((t.get? q).map Spec.minLeaf).getD 0
-                kp < kq && (ps.all fun s => if s.length == p.length && s.dropLast == p.dropLast then
-                    let ks := ((t.get? s).map Spec.minLeaf).getD 0
-                    !(kp < ks && ks < kq) else true))
-           | none => -- no sibling to the right
-               p == [] || (ps.all fun s => if s.length == p.length && s.dropLast == p.dropLast then
-                   ((t.get? s).map Spec.minLeaf).getD 0 ≤ ((t.get? p).map Spec.minLeaf).getD 0 else true)) &&
-          (match l with
-           | some q => rightOf q == some p
-           | none => p == [] || (ps.all fun s => if s.length == p.length && s.dropLast == p.dropLast then
-                   ((t.get? p).map Spec.minLeaf).getD 0 ≤ ((t.get? s).map Spec.minLeaf).getD 0 else true)))
-      then "ok" else "FAIL siblings"
+      -- the named specification predicate (TT/Spec/More15d.lean); `siblingsOK_model` proves it of the model
+      if Spec.siblingsOK t ((ps.zip outs).map fun (p, l, r) => (p, l, r)) then "ok" else "FAIL siblings"
   | "P.C19.dominance", [t, out] => withTree t fun t =>
       let ps := paths t
       let outs := (out.splitOn ";").map decPaths
